@@ -177,7 +177,7 @@ CLAIMS = {
               "lengths and magics checked against the footer model) and ~360 malformed CSV inputs (invalid UTF-8, unterminated quotes, ragged rows, NUL bytes, 3 MB fields, 5000 columns, random CSV-ish bytes x "
               "dialect options), each read by SELECT * and count(*) in a child process with a wall clock and a resident-memory watchdog: outcome must be rows or an error."),
         note=TB + "why partial: whether an out-of-bounds read faults depends on the allocator and build mode, decompressors are third-party, and the thrift/page decoders are not modelled beyond the footer - their robustness "
-             "is sampled by the fault sweep, not proved; valid starting files are limited to /repo/testdata (no Parquet writer offline); five crash sites and one hang are listed as known findings, keyed by panicking file + message.",
+             "is sampled by the fault sweep, not proved; valid starting files are limited to /repo/testdata (no Parquet writer offline); three crash sites are listed as known findings, keyed by panicking file + message.",
         technique="Lean 4 proof (footer bounds, CSV decoder totality and output bound) + fault-space sweep (truncation / byte corruption / metadata lies) with crash, hang and memory oracle in child processes",
         design="5/C19", partial=True),
     "C04": dict(
@@ -188,9 +188,10 @@ CLAIMS = {
               "and polls, once the flag is set no partition stays parked un-woken; the variant without wake_all loses a wake (witness). Tie: the harness implements PipelineRuntime itself, owns the partition pipelines and "
               "polls them one at a time, wake-only, under random / fifo / lifo / client-starving / client-first schedules with injected spurious wakes: 40 query shapes covering every barrier kind x 5 partition counts x ~46 "
               "schedules must terminate (no runnable task while unfinished = lost wake-up, reported with the schedule) with the result of the ordinary run; on the real thread pool QueryHandle::cancel at 0/20/150 ms of long "
-              "scans / joins / sorts must end the stream with an error promptly, and a run-time error in one partition must reach the client for 1-16 partitions."),
+              "scans / joins / sorts must end the stream with an error promptly, 450 cancels at 0-30 ms while the client drains a result must all end (the lock-order inversions F58/F59 deadlocked here), a run-time "
+              "error in one partition must reach the client for 1-16 partitions, and every ScheduleState transition of every task logged by the cfg hook in glaredb_rt_native must be a run of the Task model (Proto.accept)."),
         note=TB + "the protocol models are abstractions (per-operator instances of the barrier are not modelled one by one; the real operators are tied by the controlled-scheduler runs); interleavings inside one poll_execute and "
-             "rayon's fairness are not controlled; the Task model is tied to task.rs only through the cancellation / error runs on the real thread pool (TaskState is crate-private); the wasm runtime is not driven.",
+             "rayon's fairness are not controlled; nested locking is abstracted by the models (one critical section = one action): the two cancellation deadlocks were found by the runs on the real thread pool, not by a theorem; the wasm runtime is not driven.",
         technique="Lean 4 proof (invariants of the task and barrier protocol models by induction over all schedules) + controlled-scheduler exploration of the real pipelines with a lost-wake-up oracle + cancellation/error runs",
         design="5/C04"),
     "C16": dict(
